@@ -29,8 +29,8 @@ Record config := {
                                and at connection teardown); false = the flow before that commit *)
   fix_f14 : bool;           (* true = the tree since fix commit b4cfd8a (rfbWriteExact unlocks outputMutex on its
                                invalid-socket exit); false = the flow before *)
-  fix_f7b : bool            (* false = the tree; true = with notes/fix_C19_1.diff (rfbSendDirContent closes the
-                               directory stream when its first reply cannot be sent) *)
+  fix_f7b : bool            (* true = the tree since fix commit 8230228 (rfbSendDirContent closes the directory
+                               stream when its first reply cannot be sent); false = the flow before *)
 }.
 
 Inductive env_ans :=
@@ -290,7 +290,7 @@ Definition send_dir_content (cfg : config) (length : Z) (buffer : str) : M bool 
       | Some EOk =>
           r <- send_msg cfg C19_DirPacket C19_ADirectory 0 length buffer ;;
           if negb r then
-            (* the unchanged tree returns without closedir(): the directory stream is lost *)
+            (* before commit 8230228 the function returned without closedir(): the directory stream was lost *)
             ((if fix_f7b cfg then fs_void FClosedir else (s <- get_st ;; set_st (upd_lost s))) ;;; ret false)
           else
           w <- (fun w => (List.length (w_env w), w)) ;;
@@ -596,8 +596,8 @@ Definition has_dotdot_component (p : str) : bool := existsb (list_eqb [46; 46]) 
 Definition starts_with_slash (p : str) : bool := match p with c :: _ => c =? 47 | [] => false end.
 
 (* the path a rfbFileListRequest / rfbFileCreateDirRequest operates on; None = nothing touched.
-   [fix_f19] = with notes/fix_C19_2.diff (ConvertPath refuses names with a ".." component and names
-   that do not start with '/': root ++ "x" would be a sibling of the root) *)
+   [fix_f19] = true: the tree since fix commit 9f956a4 (ConvertPath refuses names with a ".." component
+   and names that do not start with '/': root ++ "x" would be a sibling of the root); false: before *)
 Definition tight_target (fix_f19 : bool) (registered enabled view_only : bool) (ftproot path : str) : option str :=
   if tight_gate registered enabled view_only then
     if (Zlength path =? 0) || (Zlength path >? C19_PATH_MAX - 1) then None
